@@ -48,6 +48,10 @@ structure DumpData where
   root : Nat
   pages : Array (Option Page)
 
+/-- a dump with one page replaced -/
+def Dump.withPage (d : Dump) (id : Nat) (p : Option Page) : Dump :=
+  { d with page := fun i => if i = id then p else d.page i }
+
 def DumpData.toDump (d : DumpData) : Dump :=
   { root := d.root, fuel := d.pages.size + 1, page := fun i => if i = 0 then none else (d.pages[i]?).join }
 
@@ -133,11 +137,12 @@ def ascending : List Nat → Bool
 
 def keysOf (l : List (Nat × Val)) : List Nat := l.map (·.1)
 
-/-- Keys strictly ordered inside every leaf and every subtree inside the interval its separators promise. -/
+/-- Keys strictly ordered inside every leaf, every separator inside the interval of its page, and every subtree
+    inside the interval its separators promise. -/
 def T.bounded : Option Nat → Option Nat → T → Bool
   | lo, hi, .leaf _ cells => ascending (keysOf cells) && (keysOf cells).all (fun k => inLo lo k && inHi hi k)
   | lo, hi, .last _ r => r.bounded lo hi
-  | lo, hi, .cons _ ch s rest => ch.bounded lo (some s) && rest.bounded (some s) hi
+  | lo, hi, .cons _ ch s rest => inLo lo s && inHi hi s && ch.bounded lo (some s) && rest.bounded (some s) hi
 
 /-- separators strictly increasing inside every interior page -/
 def T.sepsAscending : T → Bool
@@ -157,10 +162,26 @@ def linksOk (d : Dump) : Nat → List Nat → Bool
     | some (.leaf pr nx _) => pr == p && nx == ls.headD 0 && linksOk d l ls
     | _ => false
 
-def leBool (a b : Nat) : Bool := decide (a ≤ b)
+/-- merge of two lists (fuel = sum of the lengths is enough; structural recursion so that the kernel can evaluate it) -/
+def mergeF : Nat → List Nat → List Nat → List Nat
+  | 0, xs, ys => xs ++ ys
+  | _ + 1, [], ys => ys
+  | _ + 1, xs, [] => xs
+  | f + 1, x :: xs, y :: ys =>
+    if x ≤ y then x :: mergeF f xs (y :: ys) else y :: mergeF f (x :: xs) ys
+
+/-- top-down merge sort; `fuel` bounds the depth of the recursion -/
+def msort : Nat → List Nat → List Nat
+  | 0, l => l
+  | f + 1, l =>
+    if l.length < 2 then l
+    else
+      let a := l.take (l.length / 2)
+      let b := l.drop (l.length / 2)
+      mergeF l.length (msort f a) (msort f b)
 
 /-- no page id occurs twice (sort, then compare neighbours) -/
-def distinct (l : List Nat) : Bool := ascending (l.mergeSort leBool)
+def distinct (l : List Nat) : Bool := ascending (msort l.length l)
 
 /-- the tree read from the root -/
 def treeOf (d : Dump) : Option T := extract d d.fuel d.root
